@@ -1,8 +1,14 @@
-"""C17  Library queues are FIFOs with their advertised same-cycle behaviour.
+"""C17  Library queues are FIFOs with their advertised same-cycle behaviour: Fifo.tla / FifoChain.tla model-checked,
+every transition of the state graphs replayed on every queue class, random histories validated by FifoTrace;
+the same in both directions for the interface adapters and connect hooks the queues are composed through
+(Adapter.tla / Channel.tla / AdapterTrace.tla, compositions adapter + queue + adapter end to end) and for the
+register files the queue datapaths store messages in (RegFile.tla / RegFileTrace.tla).
 
 spec/Fifo.tla (one action per clock cycle, parameterised by kind and capacity), spec/FifoChain.tla (two
 one-entry bypass queues in series = enrdy BypassQueue2RTL), spec/FifoTrace.tla (trace validation against
-either), harness/c17_duts.py (one legal driver per interface style).
+either), harness/c17_duts.py (one legal driver per interface style); spec/Adapter.tla, Channel.tla,
+AdapterTrace.tla, harness/c17_adapters.py (interface adapters, connect hooks, compositions); spec/RegFile.tla,
+RegFileTrace.tla, harness/c17_regfile.py (register files); harness/c17_ext.py (parts 6-7).
   1. TLC checks Fifo.tla exhaustively for every kind x capacity (|Msgs| = 3): occupancy bound,
      delivered is a prefix of accepted, accepted = delivered o q, ready/valid exactly per kind,
      count arithmetic, per-step FIFO order; once with the histories hidden by a VIEW (whole
@@ -24,6 +30,43 @@ either), harness/c17_duts.py (one legal driver per interface style).
      graph (every other deviation keeps its own `replay:...:chain:` key), and the deviations of the
      chain model from the advertised kind -- computed from the two TLC state graphs, exactly one
      state -- are reported once under `kind-rule:<class>:<clause>-with-<stage occupancy>`.
+  6. the interface adapters through which queues are composed (send_recv_ifcs.py RecvCL2SendRTL,
+     RecvRTL2SendCL, RecvFL2SendCL, RecvFL2SendRTL; get_give_ifcs.py GetRTL2GiveCL, RecvCL2GiveFL,
+     RecvRTL2GiveFL and the And gate of GiveIfcRTL.connect; stream/queue_adapters.py RecvQueueAdapter,
+     SendQueueAdapter; enq_deq_ifcs.py only subclasses the interfaces): Adapter.tla models each as a
+     channel with a 0/1-entry buffer (state: buffer, pending deferred clear, message of a blocked FL
+     producer, blocked FL consumer; one action per cycle with the offers and reset as arguments).
+     TLC checks for all kinds in one run: occupancy <= capacity, delivered prefix of accepted,
+     accepted = delivered o in-flight, ready/enable/valid outputs exactly per kind, step-wise
+     refinement of Channel.tla (the bare channel property) and -- for the buffered kinds -- of
+     Fifo.tla(bypass|pipe, 1).  spec -> code: the dumped graph of every kind is walked on the real
+     adapter between a harness producer and consumer (CL sides: method calls from update_once
+     blocks; FL sides: blocking calls from update_once blocks; RTL sides: legal stubs fed from
+     top-level ports) and on ten designs in which a connect hook (RecvIfcRTL / SendIfcRTL / SendIfcFL
+     / GetIfcFL / GiveIfcRTL .connect) must insert the adapter.  code -> spec: random bursty offer
+     histories of every adapter / hook design validated by AdapterTrace, and end-to-end histories of
+     eight compositions adapter + library queue + adapter (explicit adapters and RTL / CL / stream
+     queues of different levels connected directly) validated against Channel(sum of capacities)
+     including a drain phase.  A message object handed to a CL / FL consumer must keep its value.
+     The statement gives ready/valid rules for the library QUEUES only; of an adapter it demands the
+     channel clauses.  An adapter that, probed from the empty state with a standing offer, never
+     raises ready and never accepts or delivers anything is therefore recorded as an OBSERVATION
+     (evidence key adapter_observations, with the reproduction) and not as a violation: its walk is
+     skipped and its histories are judged on the channel clauses only (Channel.tla); as soon as it
+     accepts a message the full walk and every clause apply again.
+  7. RegisterFile / RegisterFileRst: RegFile.tla (combinational reads of the pre-edge contents, all
+     enabled writes commit at the edge, later write port wins, const_zero, reset); TLC checks read =
+     contents, frame, last-port-wins, const-zero, reset on every transition and is required to refute
+     a false step property; every transition of the dumped graphs of six (thorough: ten) small
+     shapes is replayed on the real classes (Bits and bitstruct Type); random port histories of
+     44 (640) larger shapes (nregs 1..32 incl. non-powers of two and the sizes the queue datapaths
+     use, 1..3 read / 1..2 write ports, both classes, const_zero, reset values, Bits1..Bits32 and a
+     bitstruct) are validated by RegFileTrace.
+  8. canaries for 6-7: independent software adapters / register file must agree with every dumped
+     graph; their faulty variants (duplicate, drop, wrong ready, invented message, ignored reset,
+     early return; first port wins, wrong register, const_zero on the wrong port / off, reset skipping
+     the last register, write forwarded to a read, lost write) and corrupted copies of real traces
+     must be rejected by the walks and by the trace specs.
 
 NOTE: Trusted base: TLC, Fifo.tla as the statement of the kind rules (FifoChain.tla is only a model of one
 class: it is never a licence -- its deviations from Fifo.tla are computed and reported), the adapters of
@@ -31,7 +74,23 @@ c17_duts.py (legal en/rdy, val/rdy and CL method drivers; the intra-cycle order 
 queue). Reset is only exercised on classes whose state has a reset term; occupancy of classes
 without a count port is read from their full bits / deque (white box). valrdy_queues.py cannot be
 imported on the unchanged tree (missing InValRdyIfc/OutValRdyIfc); the stream val/rdy interfaces are
-lent under those names in memory.
+lent under those names in memory.  Adapters: Adapter.tla states the kind of each adapter as its code and
+comments give it (bypass order for RecvCL2SendRTL, SendQueueAdapter, GetRTL2GiveCL, RecvRTL2GiveFL,
+RecvFL2Send*; pipe order for RecvQueueAdapter, RecvCL2GiveFL); the one order the constraints of
+RecvFL2SendRTL leave open (up_clear against the calling block) is read from the schedule and both
+orders are admitted.  The harness stubs of c17_adapters.py are trusted (every top-level input passes
+through an update block, because sim_tick of a design with method ports runs the clock edge before the
+update blocks); a blocked FL caller keeps its offer; buffer occupancy is read from s.entry / send.en
+(white box).  Compositions are judged on the channel property only.  Ready/enable exactness of an adapter is a
+comparison with a model of the code, not a clause of the statement: RecvRTL2GiveFL (and the
+GetIfcFL.connect(RecvIfcRTL) hook that inserts it) never raises recv.rdy on the unchanged tree (rdy =
+`entry is not None`, entry cleared every cycle; repro/C17/repro_rtl2givefl_never_ready.py) -- it accepts
+nothing, hence loses nothing: recorded as an observation and an assumption, only the channel clauses are
+demanded of it.  GetRTL2GiveCL (and the
+GiveIfcRTL.connect(CalleeIfcCL) hook) cannot be elaborated on the unchanged tree (reads get.msg, the
+port is get.ret): recorded as an assumption and checked as soon as it builds.  Register files: addresses
+stay below nregs, payloads below 2^31; RegisterFileRst with const_zero and a non-zero reset_value loads
+the reset value into register 0 too -- modelled as the code does it.
 """
 import collections
 import copy
@@ -981,6 +1040,7 @@ def run(res, tier):
     caps = (1, 2, 3, 4) if quick else (1, 2, 3, 4, 5)
     import time
     import c17_duts
+    import c17_ext
     ph, t0 = {}, time.time()
 
     def lap(name):
@@ -995,7 +1055,7 @@ def run(res, tier):
                              5 if quick else 7),
         lambda: _model_check_chain(lres, 5 if quick else 7),
         lambda: _load_graphs(lres, caps),
-        lambda: _load_chain_graph(lres)], nthreads=4)
+        lambda: _load_chain_graph(lres)] + c17_ext.model_check_jobs(lres, quick), nthreads=6)
     _kind_deviations(res, "bypass")
     lap("model_check_and_graph_dumps")
     cat = c17_duts.catalogue()
@@ -1012,6 +1072,8 @@ def run(res, tier):
     lap("traces")
     _trace_canaries(res, ok)
     lap("trace_canaries")
+    c17_ext.run_regfile(res, quick, lap)
+    c17_ext.run_adapters(res, quick, lap)
     res.note("phase_seconds", ph)
     res.cov["exhaustive"] = True
     res.note("rule", "spec->code: for every queue class x capacity <= %d, every transition (enq?, msg in 1..3, deq?, and "
@@ -1034,6 +1096,10 @@ def run(res, tier):
 def replay(obj):
     """Re-drive the recorded action path of a spec->code violation and print what happens."""
     import c17_duts
+    import c17_ext
+    r = c17_ext.replay(obj)
+    if r is not None:
+        return r
     d = obj.get("detail") or {}
     print("property C17  key=%s\n  %s" % (obj.get("key"), obj.get("what")))
     if "path" not in d:
